@@ -63,14 +63,18 @@ def explore_parallel(h, fn, stop_at_first=False, budget_s=None):
     """returns dict(stats, found(list of payloads, distinct signatures), exhausted, err, samples)"""
     t0 = time.time(); deadline = t0 + (budget_s or h.budget_s)
     _TASK['fn'] = fn; _TASK['solver_timeout_ms'] = h.solver_timeout_ms; _TASK['fresh_queries'] = h.fresh_queries
-    stats = Stats(); found = {}; samples = []; osigs = set()
+    stats = Stats(); found = {}; alts = {}; samples = []; osigs = set()
+    def note(p):
+        k = _sigkey(p['signature'])
+        if k not in found: found[k] = p
+        elif len(alts.setdefault(k, [])) < 12: alts[k].append(p)      # further counterexamples of the same signature: tried if the first one does not replay
     e = Engine(solver_timeout_ms=h.solver_timeout_ms, fresh_queries=h.fresh_queries)
     try:
         open_, viol = e.expand(fn, h.expand if NPROC > 1 else 1)
     except (Inconclusive, HarnessError) as ex:
         return {'stats': e.stats.as_dict(), 'found': [], 'exhausted': False, 'err': ('inconclusive' if isinstance(ex, Inconclusive) else 'harness', str(ex)), 'samples': [], 'osigs': []}
     stats.add(e.stats.as_dict()); samples += e.samples[:2]; osigs |= set(map(str, e.oracle_sigs))
-    for p in viol: found.setdefault(_sigkey(p['signature']), p)
+    for p in viol: note(p)
     err = None; exhausted = True
     if open_ and not (stop_at_first and found):
         ctx = multiprocessing.get_context('fork')
@@ -86,13 +90,13 @@ def explore_parallel(h, fn, stop_at_first=False, budget_s=None):
                 for res in pool.imap_unordered(_worker, tasks):
                     stats.add(res['stats']); osigs |= set(res['osigs'])
                     if len(samples) < 4: samples += res['samples']
-                    for p in res['found']: found.setdefault(_sigkey(p['signature']), p)
+                    for p in res['found']: note(p)
                     if res['err'] and not err: err = res['err']
                     pending += res['left']
                     if (stop_at_first and found) or err: break
                 if (stop_at_first and found) or err:
                     exhausted = False; pool.terminate(); break
-    return {'stats': stats.as_dict(), 'found': list(found.values()), 'exhausted': exhausted and err is None, 'err': err,
+    return {'stats': stats.as_dict(), 'found': list(found.values()), 'alts': alts, 'exhausted': exhausted and err is None, 'err': err,
             'samples': samples[:4], 'osigs': sorted(osigs), 'wall_s': time.time() - t0}
 
 
@@ -155,14 +159,21 @@ def run_check(prop_id, tier, harnesses, level_explanation, trusted_base=(), extr
         if r['err']:
             problems.append(f'{h.name}: {r["err"][0]}: {r["err"][1]}')
         # ---- triage violations: replay first
-        for p in r['found']:
-            ce = ConcreteEngine(p['model'])
-            try:
-                kind, rp = ce.run(h.scenario)
-            except BaseException as ex:
-                kind, rp = 'error', repr(ex)
-            if kind != 'violation' or _sigkey(rp['signature']) != _sigkey(p['signature']):
-                problems.append(f'{h.name}: counterexample did not reproduce concretely ({kind}: {rp}) for signature {p["signature"]}')
+        for p0 in r['found']:
+            # replay before report; a counterexample that lives only in an over-approximation (rounding envelope) does not reproduce: try the other
+            # counterexamples found for the same signature before giving up (inconclusive)
+            p = None; first_fail = None
+            for cand in [p0] + r.get('alts', {}).get(_sigkey(p0['signature']), []):
+                ce = ConcreteEngine(cand['model'])
+                try:
+                    kind, rp = ce.run(h.scenario)
+                except BaseException as ex:
+                    kind, rp = 'error', repr(ex)
+                if kind == 'violation' and _sigkey(rp['signature']) == _sigkey(cand['signature']):
+                    p = cand; break
+                if first_fail is None: first_fail = (kind, rp)
+            if p is None:
+                problems.append(f'{h.name}: counterexample did not reproduce concretely ({first_fail[0]}: {first_fail[1]}) for signature {p0["signature"]}')
                 continue
             real = None
             if h.real_replay is not None:
